@@ -426,6 +426,9 @@ struct SctpInner {
 
     // PR-SCTP: Advanced Peer Ack Point (RFC 3758)
     advanced_peer_ack_tsn: AtomicU32,
+    /// Highest cumulative TSN ack received from the peer (OUR TSN space; `cumulative_tsn_ack`
+    /// above is the receive side: the peer's TSNs we have acknowledged).
+    peer_cum_tsn_ack: AtomicU32,
     forward_tsn_pending: AtomicBool,
     forward_tsn_streams: Mutex<Vec<(u16, u16)>>,
     has_pr_sctp: AtomicBool,
@@ -882,6 +885,7 @@ impl SctpTransport {
             },
             inbound_streams: Mutex::new(HashMap::new()),
             advanced_peer_ack_tsn: AtomicU32::new(0),
+            peer_cum_tsn_ack: AtomicU32::new(0),
             forward_tsn_pending: AtomicBool::new(false),
             forward_tsn_streams: Mutex::new(Vec::new()),
             has_pr_sctp: AtomicBool::new(false),
@@ -1921,6 +1925,10 @@ impl SctpInner {
             self.next_tsn.load(Ordering::SeqCst).wrapping_sub(1),
             Ordering::SeqCst,
         );
+        self.peer_cum_tsn_ack.store(
+            self.next_tsn.load(Ordering::SeqCst).wrapping_sub(1),
+            Ordering::SeqCst,
+        );
 
         let channels_to_process = {
             let mut channels = self.data_channels.lock();
@@ -1984,6 +1992,12 @@ impl SctpInner {
             } else {
                 self.peer_rwnd.swap(a_rwnd, Ordering::SeqCst)
             };
+            if !stale_sack
+                && tsn_gt(cumulative_tsn_ack, self.peer_cum_tsn_ack.load(Ordering::SeqCst))
+            {
+                self.peer_cum_tsn_ack
+                    .store(cumulative_tsn_ack, Ordering::SeqCst);
+            }
 
             // Log peer_rwnd to understand flow control
             if a_rwnd < 100000 {
@@ -2351,6 +2365,10 @@ impl SctpInner {
 
         *self.state.lock() = SctpState::Connected;
         self.advanced_peer_ack_tsn.store(
+            self.next_tsn.load(Ordering::SeqCst).wrapping_sub(1),
+            Ordering::SeqCst,
+        );
+        self.peer_cum_tsn_ack.store(
             self.next_tsn.load(Ordering::SeqCst).wrapping_sub(1),
             Ordering::SeqCst,
         );
@@ -3691,7 +3709,9 @@ impl SctpInner {
         }
 
         // Advance the advanced peer ack point past consecutive abandoned chunks
-        let last_sacked = self.cumulative_tsn_ack.load(Ordering::SeqCst);
+        // (measured against what the PEER has acknowledged of our TSNs, not against
+        // the receive-side counter, which lives in the peer's TSN space)
+        let last_sacked = self.peer_cum_tsn_ack.load(Ordering::SeqCst);
         let mut advanced = self.advanced_peer_ack_tsn.load(Ordering::SeqCst);
         if tsn_gt(last_sacked, advanced) {
             advanced = last_sacked;
@@ -3754,7 +3774,7 @@ impl SctpInner {
 
     fn create_forward_tsn_chunk(&self) -> Option<Bytes> {
         let advanced = self.advanced_peer_ack_tsn.load(Ordering::SeqCst);
-        let last_sacked = self.cumulative_tsn_ack.load(Ordering::SeqCst);
+        let last_sacked = self.peer_cum_tsn_ack.load(Ordering::SeqCst);
         if !tsn_gt(advanced, last_sacked) {
             return None;
         }
